@@ -189,6 +189,13 @@ func (f *fakeSock) Close() error {
 	return nil
 }
 
+// readDeadlinePassed: a read deadline is set on the socket and lies in the (virtual) past.
+func (f *fakeSock) readDeadlinePassed() bool {
+	f.mu.Lock()
+	defer f.mu.Unlock()
+	return !f.rdl.IsZero() && !f.rdl.After(time.Now())
+}
+
 func (f *fakeSock) isClosed() bool {
 	f.mu.Lock()
 	defer f.mu.Unlock()
@@ -248,6 +255,7 @@ type hopComp struct {
 	refSet    *[65536]bool
 	serverIP  net.IP
 	wantIP    netip.Addr // the literal host of the address string, parsed independently
+	cfgRdl    int64      // the read deadline last set on the connection by the harness (0 = none)
 	lastReset time.Time // when the hop timer was last armed
 	pending   chan readRes
 	pendBlen  int
@@ -351,6 +359,7 @@ func (c *hopComp) cleanup() {
 	c.pending = nil
 	c.expect = nil
 	c.dirty = false
+	c.cfgRdl = 0
 	c.mu.Lock()
 	c.socks = nil
 	c.writes = nil
@@ -937,6 +946,21 @@ func (c *hopComp) Run(op string) (res vh.Result) {
 			isTimeout := p == nil
 			s := c.sock(k)
 			qb := len(c.conn.recvQueue)
+			// The fake honours its read deadline: a socket whose read deadline has passed (virtual
+			// clock) answers the pending ReadFrom with a timeout and never reads the datagram.
+			if !isTimeout && s != nil && !s.isClosed() && s.readDeadlinePassed() {
+				if c.cfgRdl == 0 {
+					which := "socket"
+					c.conn.connMutex.RLock()
+					if c.conn.prevConn == net.PacketConn(s) {
+						which = "the previous socket"
+					}
+					c.conn.connMutex.RUnlock()
+					fails = append(fails, fmt.Sprintf("a packet that arrived on %s (%d) is not delivered and ReadFrom will surface a timeout although no read deadline is set: the socket still carries an expired read deadline that was cleared on the connection", which, k))
+					c.dirty = true
+				}
+				isTimeout, p = true, nil
+			}
 			if isTimeout {
 				mops = append(mops, fmt.Sprintf("rtimeout %d", k))
 			} else {
@@ -1048,8 +1072,10 @@ func (c *hopComp) Run(op string) (res vh.Result) {
 		switch f[0] {
 		case "setdl":
 			err = c.conn.SetDeadline(timeOf(v))
+			c.cfgRdl = v
 		case "setrdl":
 			err = c.conn.SetReadDeadline(timeOf(v))
+			c.cfgRdl = v
 		case "setwdl":
 			err = c.conn.SetWriteDeadline(timeOf(v))
 		case "setrbuf":
@@ -1183,6 +1209,7 @@ func (c *hopComp) Gen(r *vh.RNG, n int, emit func(op string, tags ...string)) {
 		steps := r.Range(4, 40)
 		flood := r.Chance(1, 60)
 		d10 := r.Chance(1, 5)
+		dlclear := r.Chance(1, 6)
 		for i := 0; i < steps; i++ {
 			if flood && i == 2 {
 				e(fmt.Sprintf("flood %d %d", nsock-1, 1020), "flood")
@@ -1192,6 +1219,20 @@ func (c *hopComp) Gen(r *vh.RNG, n int, emit func(op string, tags ...string)) {
 				e("socks", "socks")
 				e("read 2048", "read")
 				e(fmt.Sprintf("recv %d %s", nsock-1, payload()), "recv-nearfull")
+				continue
+			}
+			if dlclear && !closed && i == 1 {
+				// a read deadline that will have passed, a hop, then the deadline is CLEARED: the
+				// previous socket must deliver again
+				e(fmt.Sprintf("%s %d", []string{"setrdl", "setdl"}[r.Intn(2)], 946684800000000000+int64(1+r.Intn(3))*sec), "setdeadline")
+				e("tick 1", "tick")
+				nsock++
+				e(fmt.Sprintf("%s 0", []string{"setrdl", "setdl"}[r.Intn(2)]), "setdeadline-clear")
+				e("socks", "socks")
+				e(fmt.Sprintf("recv %d %s", nsock-2, payload()), "recv-prev-after-clear")
+				e(fmt.Sprintf("recv %d %s", nsock-1, payload()), "recv")
+				e("read 2048", "read")
+				e("read 2048", "read")
 				continue
 			}
 			if d10 && !closed && i == steps-3 {
